@@ -68,6 +68,12 @@ func (p *Validator) ValidateReader(r io.Reader) error {
 	buf := make([]byte, readBufSize)
 	eof := false
 	cnt, err := r.Read(buf)
+	// A BOM can be split over more than one read.
+	for 0 < cnt && cnt < 4 && err == nil && buf[0] == 0xEF {
+		var n int
+		n, err = r.Read(buf[cnt:])
+		cnt += n
+	}
 	buf = buf[:cnt]
 	if err != nil {
 		if !errors.Is(err, io.EOF) {
